@@ -6,8 +6,8 @@ package harness
 import (
 	"fmt"
 	"os"
-	"strconv"
 	"sort"
+	"strconv"
 	"strings"
 	"testing"
 	"testing/cryptotest"
